@@ -62,6 +62,9 @@ class ProgGen:
         return t
 
     def _test(self, depth=1):
+        if "const-test" in self.f and self.rng.random() < 0.05:
+            # a literal as the test of an `if` (never of a loop: test() asks for one that consults the oracle)
+            return self.rng.choice(["True", "False", "0", "1", "None"])
         r = self.rng.random()
         if r < 0.3:
             return "%s == 1" % self.ext()
@@ -152,7 +155,7 @@ class ProgGen:
         return "\n".join(["def f(a, b):"] + body) + "\n"
 
 
-CLEAN = {"boolop", "not", "attr", "for", "while-else", "for-else", "aug"}
+CLEAN = {"boolop", "not", "attr", "for", "while-else", "for-else", "aug", "const-test"}
 ALL = CLEAN | {"nested-boolop", "for-live", "dead-after-jump", "boolop-in-expr"}
 
 
